@@ -14,14 +14,15 @@ TypeLevelOk   == {"ghosts", "where_clause", "child_parents"}
 TypeMisplaced == {"parent", "literal", "pattern", "type_hint"}
 \* near-misses the documentation anticipates ("Perhaps you meant ...")
 TypeMisnamed  == {"children", "ghost", "child"}
-MemberOk      == {"map", "ghost_nd", "ghost_d", "ghost_owned_d", "ghost_ref_d", "child", "parent0", "parentp_idx", "parentp_untyped", "parentp_untyped2", "parentp_untyped_deep",
+MemberOk      == {"map", "ghost_nd", "ghost_d", "ghost_owned_d", "ghost_ref_d", "child", "parent0", "parentp", "parentp_idx", "parentp_untyped", "parentp_untyped2", "parentp_untyped_deep",
                   "literal", "pattern", "type_hint"}
+\* parentp: #[parent(b1, [map(q2)] b2)] -- a parameterised parent whose child fields are named (no rule broken);
 \* parentp_idx: #[parent(0)] -- a parameterised parent whose child field is given by index and carries no name;
 \* parentp_untyped: #[parent(b1, [parent(c1)] inner)] -- a nested parent without its type;
 \* parentp_untyped2: #[parent(b1, [parent(c1)] inner: Inner, [parent(c2)] inner2)] -- the SECOND nested parent lacks its type;
 \* parentp_untyped_deep: #[parent([parent([parent(d1)] deep)] inner: Inner)] -- the type is missing one level further down
 UntypedField(n) == CASE n = "parentp_untyped" -> "inner" [] n = "parentp_untyped2" -> "inner2" [] n = "parentp_untyped_deep" -> "deep" [] OTHER -> "-"
-IsParentItem(n) == n \in {"parent0", "parentp_idx", "parentp_untyped", "parentp_untyped2", "parentp_untyped_deep"}
+IsParentItem(n) == n \in {"parent0", "parentp", "parentp_idx", "parentp_untyped", "parentp_untyped2", "parentp_untyped_deep"}
 GhostKinds(n) == CASE n \in {"ghost_nd", "ghost_d"} -> Kinds [] n = "ghost_owned_d" -> {"OI", "FO", "OIE"} [] n = "ghost_ref_d" -> {"RI", "FR", "RIE"} [] OTHER -> {}
 MemberMisplaced == {"where_clause"}
 MemberMisnamed  == {"children", "child_parents"}
@@ -36,7 +37,7 @@ AllMemberAttrs(in) == UNION {ToSetQ(in.ms[i]) : i \in DOMAIN in.ms}
 Count(s, P(_)) == Cardinality({i \in DOMAIN s : P(s[i])})
 
 \* instructions that are recognised at the level where they stand (only these take part in the semantic rules)
-UnsupportedOn(dt) == IF dt = "struct" THEN {"literal", "pattern", "type_hint"} ELSE {"parent0", "parentp_idx", "parentp_untyped", "parentp_untyped2", "parentp_untyped_deep", "child"}
+UnsupportedOn(dt) == IF dt = "struct" THEN {"literal", "pattern", "type_hint"} ELSE {"parent0", "parentp", "parentp_idx", "parentp_untyped", "parentp_untyped2", "parentp_untyped_deep", "child"}
 RecognisedT(in) == {x \in ToSetQ(in.tattrs) : x.n \in TypeLevelOk}
 RecognisedM(in, i) == {x \in ToSetQ(in.ms[i]) : x.n \in MemberOk \ UnsupportedOn(in.dt)}
 
